@@ -13,7 +13,9 @@ import (
 	"github.com/attestantio/vouch/internal/vnd"
 	"github.com/attestantio/vouch/internal/vstub"
 	"github.com/attestantio/vouch/services/attestationaggregator"
+	nullmetrics "github.com/attestantio/vouch/services/metrics/null"
 	"github.com/prysmaticlabs/go-bitfield"
+	"github.com/rs/zerolog"
 	e2wtypes "github.com/wealdtech/go-eth2-wallet-types/v2"
 )
 
@@ -36,13 +38,42 @@ func (h *c14SlotSigner) SignSlotSelections(_ context.Context, accounts []e2wtype
 	return h.sigs, nil
 }
 
+// c14Spec is the chain specification New reads SLOTS_PER_EPOCH and
+// TARGET_AGGREGATORS_PER_COMMITTEE from.
+type c14Spec struct {
+	spec map[string]any
+}
+
+func (h *c14Spec) Spec(_ context.Context, _ *api.SpecOpts) (*api.Response[map[string]any], error) {
+	return &api.Response[map[string]any]{Data: h.spec, Metadata: map[string]any{}}, nil
+}
+
+// c14New builds the aggregator the way main does: through New, the slots per
+// epoch and the target number of aggregators coming from the chain specification.
+func c14New(ct *vstub.ChainTime, target uint64, accs *c14Accounts, prov *c14AggProvider, sub *c14AggSubmitter, slotSigner *c14SlotSigner, sgn *c14APSigner) *Service {
+	s, err := New(context.Background(),
+		WithLogLevel(zerolog.Disabled),
+		WithMonitor(&nullmetrics.Service{}),
+		WithSpecProvider(&c14Spec{spec: map[string]any{"SLOTS_PER_EPOCH": ct.SPE, "TARGET_AGGREGATORS_PER_COMMITTEE": target}}),
+		WithChainTime(ct),
+		WithValidatingAccountsProvider(accs),
+		WithAggregateAttestationProvider(prov),
+		WithAggregateAttestationsSubmitter(sub),
+		WithSlotSelectionSigner(slotSigner),
+		WithAggregateAndProofSigner(sgn),
+	)
+	vnd.Assert(err == nil && s != nil, "C14.new.accepted")
+	return s
+}
+
 // VerifC14_IsAggregator: a validator is marked aggregator exactly when the
 // consensus rule says so: LE64(sha256(slot signature)[0:8]) mod max(1, size / target) == 0.
 func VerifC14_IsAggregator() {
 	n := vnd.IntRange("n", 1, 2)
 	targets := []uint64{1, 16}
 	signer := &c14SlotSigner{fail: vnd.Bool("signer.fail")}
-	s := &Service{targetAggregatorsPerCommittee: targets[vnd.Choose("target", len(targets))], slotSelectionSigner: signer}
+	// only the selection rule is exercised: the rest of the configuration is inert
+	s := c14New(&vstub.ChainTime{SPE: 32, SlotNs: 1 << 33}, targets[vnd.Choose("target", len(targets))], &c14Accounts{}, &c14AggProvider{}, &c14AggSubmitter{}, signer, &c14APSigner{})
 	accounts := make([]e2wtypes.Account, n)
 	sizes := make([]uint64, n)
 	for i := 0; i < n; i++ {
@@ -166,7 +197,8 @@ func VerifC14_AggregateJob() {
 	accs := &c14Accounts{mode: vnd.Choose("accounts", 3)}
 	sgn := &c14APSigner{fail: vnd.Bool("sign.fail")}
 	sub := &c14AggSubmitter{fail: vnd.Bool("submit.fail")}
-	s := &Service{slotsPerEpoch: ct.SPE, validatingAccountsProvider: accs, aggregateAttestationProvider: prov, aggregateAttestationsSubmitter: sub, aggregateAndProofSigner: sgn, chainTime: ct}
+	// the job does not compute selections: the target is the mainnet value, the slot selection signer unused
+	s := c14New(ct, 16, accs, prov, sub, &c14SlotSigner{}, sgn)
 	duty := &attestationaggregator.Duty{Slot: slot, AttestationDataRoot: phase0.Root(vnd.Root("data-root")), ValidatorIndex: phase0.ValidatorIndex(vnd.U64("validator")), SlotSignature: phase0.BLSSignature(vnd.Sig("slot-signature"))}
 	s.Aggregate(context.Background(), duty)
 	vnd.Assert(len(prov.asked) == 1 && prov.asked[0].Slot == slot && prov.asked[0].AttestationDataRoot == duty.AttestationDataRoot, "C14.aggjob.aggregate-asked-for-the-dutys-slot-and-data")
